@@ -211,17 +211,17 @@ def _probe(c, P, view, ref, which, when, names, addrs):
           ghost = _tup(p) if found else (_tup(g) if g is not _SENTINEL else None)
           former = (key in ref.former_names) if by == "name" else (key in ref.former_addrs)
           if former:
-            fail("stale-lookup", "no current port has %s %r, but [] found=%s, in=%s, get found=%s -> %r (a port that had it before)" % (
-                by, shown, found, inn, g is not _SENTINEL, ghost), by=by)
+            fail("attribute-lookup", "no current port has %s %r, but [] found=%s, in=%s, get found=%s -> %r (a port that had it before)" % (
+                by, shown, found, inn, g is not _SENTINEL, ghost), by=by, symptom="former-attribute-still-found")
           else:
-            fail("absent-key-found", "no port has %s %r, but [] found=%s, in=%s, get found=%s -> %r" % (
-                by, shown, found, inn, g is not _SENTINEL, ghost), by=by)
+            fail("attribute-lookup", "no port has %s %r, but [] found=%s, in=%s, get found=%s -> %r" % (
+                by, shown, found, inn, g is not _SENTINEL, ghost), by=by, symptom="never-used-attribute-found")
       else:
         if not found or not inn or g is _SENTINEL:
-          fail("present-key-missing", "port(s) %r have %s %r but [] found=%s, in=%s, get found=%s" % (
-              [h[0] for h in holders], by, shown, found, inn, g is not _SENTINEL), by=by)
+          fail("attribute-lookup", "port(s) %r have %s %r but [] found=%s, in=%s, get found=%s" % (
+              [h[0] for h in holders], by, shown, found, inn, g is not _SENTINEL), by=by, symptom="current-attribute-not-found")
         elif _tup(p) not in holders or _tup(g) not in holders:
-          fail("key-wrong-port", "%s %r: [] gives %r, get gives %r, holders %r" % (by, shown, _tup(p), _tup(g), holders), by=by)
+          fail("attribute-lookup", "%s %r: [] gives %r, get gives %r, but the current ports with it are %r" % (by, shown, _tup(p), _tup(g), holders), by=by, symptom="outdated-port-returned")
 
 
 def case_ports(case, out):
@@ -278,6 +278,8 @@ def case_ports(case, out):
     dup_n = len(set(t[2] for t in ref.current.values())) < len(ref.current)
     if dup_n:
       out.label("ports:two-ports-share-a-name")
+    if len(set(t[1] for t in ref.current.values())) < len(ref.current):
+      out.label("ports:two-ports-share-an-address")
   finally:
     c.close()
 
@@ -310,6 +312,13 @@ def _entry(t, tag):
 
 def _tag_of(t, e):
   """read the identifying fields of a decoded entry back (two fields, to notice mis-slicing)"""
+  try:
+    return _tag_of_entry(t, e)
+  except AttributeError:
+    return ("not-an-entry", type(e).__name__)
+
+
+def _tag_of_entry(t, e):
   if t == "flow":
     return e.cookie if (len(e.actions) == e.cookie % 3 and e.packet_count == e.cookie * 7) else ("garbled", e.cookie)
   if t == "table":
